@@ -8,7 +8,7 @@ TECHNIQUE = 'dominance of the try_insert==true edge over offset assignment and p
 EXPLANATION = ('Decides on the MIR of the current tree: in the deduplicating branch of Partition::append_messages the offset computation and the push of a message are control-dependent on try_insert(id)==true and '
                'a duplicate goes to the next iteration; the branch is selected by the presence of the deduplicator, which Partition::create ties to message_deduplication.enabled; without a deduplicator every '
                'message is pushed; at load every segment\'s ids are read from the whole log and inserted; try_insert inserts only after exists()==false and callers hold &mut Partition. '
-               'Not decided: capacity / TTL eviction semantics of the moka cache.')
+               'Also: the offset of a kept message is base + number of messages kept so far, the counter being incremented once and only on the kept path (a dropped duplicate consumes no offset). Not decided: capacity / TTL eviction semantics of the moka cache.')
 ASSUMPTIONS = ['moka Cache::contains_key / insert behave as a set with TTL and capacity (library contract)']
 
 P = sf.PART
